@@ -85,6 +85,7 @@ def run_job(job):
         res['stats'] = stats
         res['touched'] = {f'{k[0]}::{k[1]}': v for k, v in it.touched.items()}
         res['covers'] = sorted(getattr(store, 'covers', set()))
+        res['patched'] = sorted(getattr(store, 'patched', set()))
         # canary: `False` at the end of the first completed path must be refutable (pc satisfiable)
         can = None
         for pc in store.final_pcs[:3]:
